@@ -309,6 +309,52 @@ func (r *resolver) applyDeviation(y *Module, d *Deviation) error {
 	hasDets, _ := target.(HasDetails)
 	hasType, _ := target.(Leafable)
 	hasListDets, _ := target.(HasListDetails)
+	for _, dv := range []interface{}{d.Add, d.Replace, d.Delete} {
+		// make sure target supports what is being deviated
+		var config, mandatory *bool
+		var max, min *int
+		var units string
+		var hasDefault, hasUnique, hasMust bool
+		switch x := dv.(type) {
+		case *AddDeviate:
+			if x == nil {
+				continue
+			}
+			config, mandatory, max, min, units = x.configPtr, x.mandatoryPtr, x.maxElementsPtr, x.minElementsPtr, x.units
+			hasDefault, hasUnique, hasMust = x.HasDefault(), len(x.unique) > 0, len(x.musts) > 0
+		case *ReplaceDeviate:
+			if x == nil {
+				continue
+			}
+			config, mandatory, max, min, units = x.configPtr, x.mandatoryPtr, x.maxElementsPtr, x.minElementsPtr, x.units
+			hasDefault = x.HasDefault()
+		case *DeleteDeviate:
+			if x == nil {
+				continue
+			}
+			units = x.units
+			hasDefault, hasUnique, hasMust = x.HasDefault(), len(x.unique) > 0, len(x.musts) > 0
+		}
+		if (config != nil || mandatory != nil) && hasDets == nil {
+			return fmt.Errorf("%s does not support config or mandatory", d.Ident())
+		}
+		if (max != nil || min != nil) && hasListDets == nil {
+			return fmt.Errorf("%s does not support min-elements or max-elements", d.Ident())
+		}
+		if (units != "" || hasDefault) && hasType == nil {
+			return fmt.Errorf("%s does not support units or default", d.Ident())
+		}
+		if hasUnique {
+			if _, isList := target.(*List); !isList {
+				return fmt.Errorf("%s does not support unique", d.Ident())
+			}
+		}
+		if hasMust {
+			if _, valid := target.(HasMusts); !valid {
+				return fmt.Errorf("%s does not support must", d.Ident())
+			}
+		}
+	}
 	if d.Add != nil {
 		if d.Add.configPtr != nil {
 			if hasDets.IsConfigSet() {
@@ -353,9 +399,6 @@ func (r *resolver) applyDeviation(y *Module, d *Deviation) error {
 		}
 		for _, unique := range d.Add.unique {
 			target.(*List).unique = append(target.(*List).unique, unique)
-		}
-		for _, must := range d.Add.musts {
-			target.(HasMusts).addMust(must)
 		}
 	}
 	if d.Replace != nil {
@@ -405,15 +448,15 @@ func (r *resolver) applyDeviation(y *Module, d *Deviation) error {
 	}
 	if d.Delete != nil {
 		if d.Delete.units != "" {
-			if hasType.Units() == d.Delete.units {
+			if hasType.Units() != d.Delete.units {
 				return fmt.Errorf("cannot delete units '%s' != '%s' on %s",
 					d.Delete.units, hasType.Units(), d.Ident())
 			}
 			hasType.setUnits("")
 		}
 		if d.Delete.HasDefault() {
-			if hasType.DefaultValue() == d.Delete.DefaultValue() {
-				return fmt.Errorf("cannot delete units '%s' != '%s' on %s",
+			if !isArrayStringEqual(defaultsOf(hasType), d.Delete.Default()) {
+				return fmt.Errorf("cannot delete default '%s' != '%s' on %s",
 					d.Delete.Default(), hasType.DefaultValue(),
 					d.Ident())
 			}
@@ -452,6 +495,17 @@ func (r *resolver) applyDeviation(y *Module, d *Deviation) error {
 			target.(HasMusts).setMusts(musts)
 		}
 
+	}
+	return nil
+}
+
+// defaultsOf gives default or defaults of leaf or leaf-list
+func defaultsOf(t Leafable) []string {
+	switch x := t.DefaultValue().(type) {
+	case string:
+		return []string{x}
+	case []string:
+		return append([]string{}, x...)
 	}
 	return nil
 }
